@@ -106,6 +106,17 @@ WORKSPACES = {
             "program lk\n  use lm\n  implicit none\n  print *, 'a line of the program that is long enough to exceed the limit'\nend program lk\n",
         ],
     },
+    # a file that comes into being after start-up, in a directory that held no source then
+    "W8_newdir": {
+        "nu.f90": [
+            "program nu\n  use nhelper\n  implicit none\n  call nhelp(1)\nend program nu\n",
+        ],
+        "fresh/nh.f90": [
+            None,
+            "module nhelper\n  implicit none\ncontains\n  subroutine nhelp(a)\n    integer :: a\n  end subroutine nhelp\nend module nhelper\n",
+            "module nhelper\n  implicit none\ncontains\n  subroutine nhelp(a, b)\n    integer :: a\n    real, optional :: b\n  end subroutine nhelp\nend module nhelper\n",
+        ],
+    },
     "W4_preproc": {
         "pp.F90": [
             "program pp\n#define LOCAL_PP_ONLY 1\n#ifdef LOCAL_PP_ONLY\n  integer :: seen_local\n#endif\n#include \"hh.h\"\n#ifdef FROM_HH\n  integer :: seen_hh\n#endif\n  include 'decl.f90'\n  from_decl = 1\nend program pp\n",
@@ -123,7 +134,7 @@ WORKSPACES = {
     },
 }
 ARGV = {"W7_limits": ["--max_line_length", "50", "--max_comment_line_length", "40"]}
-QUERY = {"W7_limits": ("k.f90", 1, 6), "W6_move": ("user.f90", 3, 4), "W5_chain3": ("leaf.f90", 9, 6), "W1_types": ("u.f90", 4, 4), "W2_procs": ("b.f90", 9, 10), "W3_inherit": ("c.f90", 10, 9), "W4_preproc": ("pp.F90", 10, 4)}
+QUERY = {"W8_newdir": ("nu.f90", 3, 8), "W7_limits": ("k.f90", 1, 6), "W6_move": ("user.f90", 3, 4), "W5_chain3": ("leaf.f90", 9, 6), "W1_types": ("u.f90", 4, 4), "W2_procs": ("b.f90", 9, 10), "W3_inherit": ("c.f90", 10, 9), "W4_preproc": ("pp.F90", 10, 4)}
 
 
 def admissible(ws, disk):
